@@ -994,12 +994,14 @@ static const Entry kTable[] = {
 #elif GROUP == 1
     {"vec.u8.TR.ledr", &runConfig<CfgDyn<El<1>, LedgerAlloc<El<1>, true>, uint8_t, 0> >},
     {"vec.s32.TR.amc", &runConfig<CfgDyn<El<1>, AmcTR, int32_t, 0> >},
+    {"vec.u32.NTR.ledr", &runConfig<CfgDyn<El<0>, LedgerAlloc<El<0>, true>, uint32_t, 0> >},
 #elif GROUP == 2
     {"vec.u64.NTR.amc", &runConfig<CfgDyn<El<0>, AmcNTR, uint64_t, 0> >},
     {"SV3.u32.NTR.led", &runConfig<CfgDyn<El<0>, LedgerAlloc<El<0>, false>, uint32_t, 3> >},
 #elif GROUP == 3
     {"SV3.u32.TR.ledr", &runConfig<CfgDyn<El<1>, LedgerAlloc<El<1>, true>, uint32_t, 3> >},
     {"SV4.u32.TC4.amc", &runConfig<CfgDyn<TC4, AmcTC4, uint32_t, 4> >},
+    {"SV3.u16.NTR.ledr", &runConfig<CfgDyn<El<0>, LedgerAlloc<El<0>, true>, uint16_t, 3> >},
 #elif GROUP == 4
     {"SV4.u8.TC2.led", &runConfig<CfgDyn<TC2, LedgerAlloc<TC2, false>, uint8_t, 4> >},
     {"SV1.s8.NTR.led", &runConfig<CfgDyn<El<0>, LedgerAlloc<El<0>, false>, int8_t, 1> >},
